@@ -28,7 +28,10 @@ def load_known_findings(prop: str) -> list[dict]:
     return [e for e in data.get("entries", []) if e.get("property") == prop and e.get("kind") == "finding"]
 
 
-def finding_matches(entry: dict, v: Violation) -> bool:
+def finding_matches(entry: dict, v: Violation, tier: str = "quick") -> bool:
+    """A listed finding suppresses a violation only if the failure class (signature) matches AND, where the check reports
+    the failing inputs of the class (`extra.members`), every one of them is an input the finding lists for this tier.
+    Anything else of the same class (a new failing input, a class that grew) is reported as a violation."""
     m = entry.get("match", {})
     if "signature" in m and m["signature"] != v.signature:
         return False
@@ -36,7 +39,21 @@ def finding_matches(entry: dict, v: Violation) -> bool:
         return False
     if "obligation" in m and m["obligation"] != v.obligation:
         return False
-    return bool(m)
+    if not m:
+        return False
+    allowed = m.get("members_" + tier, m.get("members"))
+    if allowed is not None:
+        members = (v.extra or {}).get("members")
+        if members is None:
+            return False
+        new = [x for x in members if x not in set(allowed)]
+        if new or (v.extra or {}).get("count", len(members)) > len(members):
+            v.what = f"[outside the listed known finding: {len(new)} new failing input(s), e.g. {new[:3]}] " + v.what
+            return False
+    if "max_count_" + tier in m and (v.extra or {}).get("count", 1) > m["max_count_" + tier]:
+        v.what = f"[known finding class grew beyond {m['max_count_' + tier]} inputs] " + v.what
+        return False
+    return True
 
 
 def write_replay(prop: str, v: Violation) -> str:
@@ -154,7 +171,7 @@ def main(argv: list[str]) -> int:
     new: list[Violation] = []
     for v in res.violations:
         for i, e in enumerate(findings):
-            if finding_matches(e, v):
+            if finding_matches(e, v, ctx.tier):
                 known_hit[i] = known_hit.get(i, 0) + 1
                 break
         else:
@@ -173,10 +190,12 @@ def main(argv: list[str]) -> int:
         seen[v.signature] = seen.get(v.signature, 0) + 1
         if seen[v.signature] > 1:
             continue
+        if len(lines) >= 40:
+            continue
         path = write_replay(args.prop, v)
         tail = "" if v.failing_input_found else " no-failing-input-found"
         lines.append(f"VIOLATION property={args.prop} replay={path}{tail}")
-        print(f"  -- {v.what}")
+        print(f"  -- {v.what[:600]}")
     write_evidence(res, ctx, wall, len(new), known_lines)
     for ln in lines:
         print(ln)
